@@ -300,3 +300,139 @@ def run(rep: Report, prog: Program, tier: str) -> None:
             rep.fail(mk_finding(prog, PROP, "C11-RTXPT", send_f, sel[0], f"codecs {label}: the sender encodes with payload type {codecs[0].payloadType} but retransmits with RTX payload type {got} "
                                 f"(expected {want}): the receiver unwraps the retransmission as another codec, the hole is never filled and the decoder is handed a frame nobody sent",
                                 construct="rtx payload type of the encoding codec"))
+
+    loop_rule(rep, prog)
+
+
+def loop_rule(rep: Report, prog: Program) -> None:
+    """C11-LOOP: the NACK / RTX repair loop closed over the real code of both ends (AST level): the receiver's _handle_rtp_packet, NackGenerator and
+    _send_rtcp_nack, the sender's _handle_rtcp_packet and _retransmit, wrap_rtx / unwrap_rtx.  Packets are delivered in order except a lost set; every
+    feedback packet the receiver emits is handed to the sender, every retransmission back to the receiver.  At the end the jitter buffer must have been given
+    every packet exactly once with its original numbers, and nothing that was not lost may have been asked for."""
+    from types import SimpleNamespace as NS
+
+    from engine.index import Unknown
+    from engine.peval import Evaluator, Raised
+
+    from .objhook import make_hook
+    RULE = "C11-LOOP"
+    rep.rule(RULE, "lost packets are asked for by NACK, retransmitted (RTX or verbatim) and reach the jitter buffer once, with their original numbers", min_instances=8)
+    rh = prog.func(R + "._handle_rtp_packet")
+    sh = prog.func(S + "._handle_rtcp_packet")
+    world: dict = {}
+
+    def extra(call: ast.Call, ev: Evaluator):
+        name = unparse(call.func)
+        me = ev.env.get("self")
+        if name.endswith("__jitter_buffer.add"):
+            world["added"].append(ev.ev(call.args[0]))
+            return (False, None)
+        if name.endswith("__log_debug") or name.endswith("__log_warning"):
+            return None
+        if name == "depayload":
+            return b"D" + ev.ev(call.args[1])
+        if name in ("clock.current_datetime", "current_datetime"):
+            return 0
+        if name == "time.time":
+            return 100.0
+        if name.endswith("_send_rtcp") and call.args and getattr(me, "role", None) == "receiver":
+            world["feedback"].append(ev.ev(call.args[0]))
+            return None
+        if name.endswith("_send_rtcp_pli"):
+            return None
+        if name.endswith(".serialize") and len(call.args) == 1:
+            return ev.ev(call.func.value)          # the packet object stands for its bytes
+        if name.endswith("transport._send_rtp"):
+            world["wire"].append(ev.ev(call.args[0]))
+            return None
+        if name == "isinstance" and len(call.args) == 2:
+            v = ev.ev(call.args[0])
+            names = [unparse(x).split(".")[-1] for x in (call.args[1].elts if isinstance(call.args[1], ast.Tuple) else [call.args[1]])]
+            if isinstance(v, NS) and hasattr(v, "__cls__"):
+                return v.__cls__.name in names
+            py = {"int": int, "str": str, "bytes": bytes}
+            return any(n in py and isinstance(v, py[n]) for n in names)
+        return NotImplemented
+    oh = make_hook(prog, extra)
+    ev0 = Evaluator(prog, rh.module, None, {}, oh)
+    pkt_cls = prog.cls("rtp.RtpPacket")
+
+    def mk_packet(seq, ts, payload):
+        return oh.instantiate(pkt_cls, [], dict(payload_type=96, sequence_number=seq, timestamp=ts, ssrc=1000, payload=payload), ev0)
+
+    def receiver(rtx: bool):
+        r = NS(__cls__=rh.cls, role="receiver", _enabled=True)
+        codecs = {96: NS(name="VP8", mimeType="video/VP8", clockRate=90000, parameters={})}
+        if rtx:
+            codecs[97] = NS(name="rtx", mimeType="video/rtx", clockRate=90000, parameters={"apt": 96})
+        for k, v in {"__remote_bitrate_estimator": None, "__rtcp_ssrc": 7, "__active_ssrc": {}, "__remote_streams": {}, "__rtx_ssrc": {2000: 1000} if rtx else {},
+                     "__decoder_thread": None, "__jitter_buffer": NS(), "__kind": "video", "__codecs": codecs,
+                     "__nack_generator": oh.instantiate(prog.cls("rtcrtpreceiver.NackGenerator"), [], {}, ev0)}.items():
+            setattr(r, k, v)
+        return r
+
+    def sender(rtx: bool, rtx_seq0: int, history):
+        s = NS(__cls__=sh.cls, role="sender", _ssrc=1000, _rtx_ssrc=2000, transport=NS())
+        hsize = prog.const(prog.module("rtcrtpsender"), "RTP_HISTORY_SIZE")
+        for k, v in {"__rtx_payload_type": 97 if rtx else None, "__rtx_sequence_number": rtx_seq0, "__rtp_history": {p.sequence_number % hsize: p for p in history},
+                     "__rtp_header_extensions_map": NS()}.items():
+            setattr(s, k, v)
+        return s
+    import itertools
+    cases = list(itertools.product((True, False), (100, 65530), ((3,), (3, 4), (2, 7)), (5000, 65535)))
+    for rtx, seq0, lost, rtx_seq0 in cases:
+        if not rtx and rtx_seq0 != 5000:
+            continue
+        label = f"{'RTX' if rtx else 'no RTX'}, first sequence number {seq0}, lost {list(lost)}" + (f", RTX sequence numbers from {rtx_seq0}" if rtx else "")
+        packets = [mk_packet((seq0 + i) % 65536, 3000 * i, bytes([i])) for i in range(10)]
+        world.update(added=[], feedback=[], wire=[])
+        r, s = receiver(rtx), sender(rtx, rtx_seq0, packets)
+        asked: list = []
+        rtx_seqs: list = []
+        try:
+            for i, p in enumerate(packets):
+                if i in lost:
+                    continue
+                # a fresh copy travels: the receiver annotates what it gets
+                oh.run_method(rh, r, [mk_packet(p.sequence_number, p.timestamp, p.payload), 1000 + i], {})
+                while world["feedback"] or world["wire"]:
+                    for fb in list(world["feedback"]):
+                        world["feedback"].remove(fb)
+                        if getattr(fb, "media_ssrc", None) != 1000:
+                            raise _Problem(f"feedback {fb.__cls__.name} names media SSRC {getattr(fb, 'media_ssrc', None)}, the stream's SSRC is 1000: the router hands it to nobody")
+                        asked.extend(getattr(fb, "lost", []))
+                        oh.run_method(sh, s, [fb], {})
+                    for w in list(world["wire"]):
+                        world["wire"].remove(w)
+                        if rtx:
+                            if w.ssrc != 2000 or w.payload_type != 97:
+                                raise _Problem(f"the retransmission travels with SSRC {w.ssrc} / payload type {w.payload_type}, negotiated RTX is 2000 / 97")
+                            rtx_seqs.append(w.sequence_number)
+                        oh.run_method(rh, r, [w, 2000], {})
+            got = sorted((p.sequence_number, p.timestamp, getattr(p, "_data", None)) for p in world["added"])
+            want = sorted((p.sequence_number, p.timestamp, b"D" + p.payload) for p in packets)
+            lost_seqs = {packets[i].sequence_number for i in lost}
+            problem = None
+            if got != want:
+                missing = [w for w in want if w not in got]
+                extra_ = [g for g in got if g not in want or got.count(g) > 1]
+                problem = f"the jitter buffer received {len(got)} packets; missing {missing[:3]}, unexpected or duplicated {extra_[:3]}"
+            elif not set(asked) <= lost_seqs:
+                problem = f"NACKs ask for {sorted(set(asked) - lost_seqs)}, which were never lost"
+            elif rtx and [x for x in rtx_seqs] != [(rtx_seq0 + k) % 65536 for k in range(len(rtx_seqs))]:
+                problem = f"RTX sequence numbers {rtx_seqs} are not consecutive from {rtx_seq0}"
+        except _Problem as ex:
+            problem = str(ex)
+        except Raised as ex:
+            rep.fail(mk_finding(prog, PROP, RULE, rh, getattr(ex, "node", None), f"[{label}] raises {ex.name}", construct=f"repair loop raises {ex.name}"))
+            continue
+        except Unknown as ex:
+            raise AnalysisError(f"{RULE} cannot evaluate [{label}]: {ex}")
+        if problem:
+            rep.fail(mk_finding(prog, PROP, RULE, rh, rh.node, f"[{label}] {problem}", construct="repair loop: " + problem[:50]))
+        else:
+            rep.ok(RULE, label, sample=f"{len(lost)} lost packet(s) asked for, retransmitted and delivered; 10 packets reached the jitter buffer once")
+
+
+class _Problem(Exception):
+    pass
